@@ -189,6 +189,9 @@ func runCheck(o *Options) int {
 			}
 			fi := w.Funcs[ct.PkgName+"."+ct.Key]
 			if fi == nil {
+				fi = w.litFunc(ct.PkgName + "." + ct.Key)
+			}
+			if fi == nil {
 				missing = append(missing, ct.PkgName+"."+ct.Key)
 				continue
 			}
